@@ -70,6 +70,11 @@ FLAVOURS = {
         c=BASE + ["-DNDEBUG", "-fsanitize=fuzzer-no-link,address," + UBSAN_C, "-fno-sanitize-recover=all"],
         cxx=BASE + ["-fsanitize=fuzzer-no-link,address," + UBSAN_CXX, "-fno-sanitize-recover=all"],
         ld=["-fsanitize=fuzzer,address," + UBSAN_CXX]),
+    # development aid (tools/coverage.sh): source-based coverage of the library under the harnesses, no sanitizers
+    "cov": dict(
+        c=BASE + ["-DNDEBUG", "-fprofile-instr-generate", "-fcoverage-mapping"],
+        cxx=BASE + ["-fprofile-instr-generate", "-fcoverage-mapping"],
+        ld=["-fprofile-instr-generate"]),
     "sched": dict(
         c=BASE + ["-DNDEBUG", "-fsanitize=address," + UBSAN_C, "-fno-sanitize-recover=all",
                   "-include", HOOK],
